@@ -9,3 +9,4 @@ INVARIANT ScheduleIndependent
 INVARIANT ShiftScheduleIndependent
 INVARIANT InsideDetector
 INVARIANT RollConserves
+PROPERTY TableStable
